@@ -76,6 +76,14 @@ theorem inv_tick (ops : PriceOps P) (m : Market P) (f : Option P) (h : Inv m) :
     fun b hb s hs => h.disj b (List.mem_filter.mp hb).1 s (List.mem_filter.mp hs).1,
     by simp [h.past]⟩
 
+theorem inv_setTime (ops : PriceOps P) (m : Market P) (k : Nat) (f : Option P) (h : Inv m) (hk : 1 ≤ k) :
+    Inv (m.setTime ops k f).1 := by
+  unfold Market.setTime
+  refine ⟨h.buys.jump k, h.sells.jump k,
+    fun b hb s hs => h.disj b (List.mem_filter.mp hb).1 s (List.mem_filter.mp hs).1, ?_⟩
+  simp only [List.length_append, List.length_replicate, List.length_cons, h.past]
+  omega
+
 /-- the two ways `_execution` returns normally -/
 theorem execution_cases (ops : PriceOps P) (m m' : Market P) (fs : List (Fill P))
     (he : m.execution ops = .ok (m', fs)) :
@@ -152,6 +160,7 @@ theorem inv_step (ops : PriceOps P) (m : Market P) (o : Op P) (h : Inv m) (hv : 
     · exact h
     · exact inv_execution ops m m' fs h hc
   | tick f => exact inv_tick ops m f h
+  | jump k f => exact inv_setTime ops m (k + 1) f h (by omega)
   | setRunning b => exact ⟨h.buys, h.sells, h.disj, h.past⟩
 
 /-- every state reachable from a state satisfying `Inv` by valid operations satisfies `Inv` -/
